@@ -594,6 +594,113 @@ Section STAGES.
   Qed.
 End STAGES.
 
+(* ================= top / bottom k ================= *)
+Lemma qltb_lt a b : qltb a b = true <-> (a < b)%Qc.
+Proof. unfold qltb. rewrite Qclt_alt. destruct (a ?= b)%Qc; split; congruence. Qed.
+Lemma qeqb_eq a b : qeqb a b = true <-> a = b.
+Proof. unfold qeqb. rewrite Qceq_alt. destruct (a ?= b)%Qc; split; congruence. Qed.
+Lemma qcompare_antisym a b : (b ?= a)%Qc = CompOpp (a ?= b)%Qc.
+Proof. unfold Qccompare. symmetry. apply Qcompare_antisym. Qed.
+
+Definition tk_key (top : bool) (r : mrow) : Qc := if top then Qcopp (r_val r) else r_val r.
+Lemma tk_before_char top a b :
+  tk_before top a b = match (tk_key top a ?= tk_key top b)%Qc with Datatypes.Lt => true | Datatypes.Eq => N.leb (r_fp a) (r_fp b) | Datatypes.Gt => false end.
+Proof.
+  unfold tk_before, tk_key, qltb, qeqb. destruct top; cbn;
+  match goal with |- context [(?x ?= ?y)%Qc] => destruct (x ?= y)%Qc end; reflexivity.
+Qed.
+Lemma tk_total top a b : tk_before top a b = false -> tk_before top b a = true.
+Proof.
+  rewrite !tk_before_char, (qcompare_antisym (tk_key top a) (tk_key top b)).
+  destruct (tk_key top a ?= tk_key top b)%Qc; cbn; try congruence.
+  intros H. apply N.leb_gt in H. apply N.leb_le. lia.
+Qed.
+Lemma tk_trans top a b c : tk_before top a b = true -> tk_before top b c = true -> tk_before top a c = true.
+Proof.
+  rewrite !tk_before_char.
+  destruct (tk_key top a ?= tk_key top b)%Qc eqn:E1; try discriminate;
+  destruct (tk_key top b ?= tk_key top c)%Qc eqn:E2; try discriminate; intros H1 H2.
+  - apply Qceq_alt in E1. apply Qceq_alt in E2. rewrite E1, E2.
+    assert (E : (tk_key top c ?= tk_key top c)%Qc = Datatypes.Eq) by now apply Qceq_alt. rewrite E.
+    apply N.leb_le in H1. apply N.leb_le in H2. apply N.leb_le. lia.
+  - apply Qceq_alt in E1. rewrite E1, E2. reflexivity.
+  - apply Qceq_alt in E2. rewrite <- E2, E1. reflexivity.
+  - apply Qclt_alt in E1. apply Qclt_alt in E2.
+    assert (E : (tk_key top a ?= tk_key top c)%Qc = Datatypes.Lt) by (apply Qclt_alt; eapply Qclt_trans; eassumption).
+    now rewrite E.
+Qed.
+(* sorting before means: not a smaller value (top) / not a larger value (bottom) *)
+Lemma tk_before_val top a b : tk_before top a b = true ->
+  if top then (r_val b <= r_val a)%Qc else (r_val a <= r_val b)%Qc.
+Proof.
+  rewrite tk_before_char. unfold tk_key.
+  assert (Hle : forall x y : Qc, (x ?= y)%Qc <> Datatypes.Gt -> (x <= y)%Qc).
+  { intros x y H. destruct (x ?= y)%Qc eqn:E; [apply Qceq_alt in E; subst; apply Qcle_refl|apply Qclt_alt in E; now apply Qclt_le_weak|congruence]. }
+  destruct top; intros H.
+  - assert (Hk : (- r_val a <= - r_val b)%Qc) by (apply Hle; destruct (- r_val a ?= - r_val b)%Qc; congruence).
+    apply Qcopp_le_compat in Hk. now rewrite !Qcopp_involutive in Hk.
+  - apply Hle. destruct (r_val a ?= r_val b)%Qc; congruence.
+Qed.
+
+Lemma in_skipn_l {A} (l : list A) k x : In x (skipn k l) -> In x l.
+Proof. intros H. rewrite <- (firstn_skipn k l). apply in_or_app. now right. Qed.
+Lemma in_firstn_l {A} (l : list A) k x : In x (firstn k l) -> In x l.
+Proof. intros H. rewrite <- (firstn_skipn k l). apply in_or_app. now left. Qed.
+
+Section SORT.
+  Variable le : mrow -> mrow -> bool.
+  Hypothesis le_total : forall a b, le a b = false -> le b a = true.
+  Hypothesis le_trans : forall a b c, le a b = true -> le b c = true -> le a c = true.
+
+  Fixpoint sorted (l : list mrow) : Prop :=
+    match l with [] => True | x :: r => (forall y, In y r -> le x y = true) /\ sorted r end.
+  Lemma insert_in x l y : In y (insert_by le x l) <-> x = y \/ In y l.
+  Proof.
+    induction l as [|a r IH]; cbn; [tauto|]. destruct (le x a); cbn; [tauto|]. rewrite IH. tauto.
+  Qed.
+  Lemma insert_sorted x l : sorted l -> sorted (insert_by le x l).
+  Proof.
+    induction l as [|a r IH]; cbn [insert_by sorted]; [intros _; split; [intros y []|exact I]|].
+    intros [Ha Hr]. destruct (le x a) eqn:E; cbn [sorted].
+    - split; [|split; assumption]. intros y [<-|Hy]; [exact E|]. eapply le_trans; [exact E|now apply Ha].
+    - split; [|now apply IH]. intros y Hy. apply insert_in in Hy. destruct Hy as [<-|Hy]; [now apply le_total|now apply Ha].
+  Qed.
+  Lemma sort_in l y : In y (sort_by le l) <-> In y l.
+  Proof. unfold sort_by. induction l as [|a r IH]; cbn [fold_right]; [tauto|]. rewrite insert_in, IH. cbn. tauto. Qed.
+  Lemma sort_sorted l : sorted (sort_by le l).
+  Proof. unfold sort_by. induction l as [|a r IH]; cbn [fold_right]; [exact I|now apply insert_sorted]. Qed.
+  Lemma insert_length x l : List.length (insert_by le x l) = S (List.length l).
+  Proof. induction l as [|a r IH]; cbn; [reflexivity|]. destruct (le x a); cbn; [reflexivity|now rewrite IH]. Qed.
+  Lemma sort_length l : List.length (sort_by le l) = List.length l.
+  Proof. unfold sort_by. induction l as [|a r IH]; cbn [fold_right]; [reflexivity|]. now rewrite insert_length, IH. Qed.
+  Lemma sorted_split l : forall k x y, sorted l -> In x (firstn k l) -> In y (skipn k l) -> le x y = true.
+  Proof.
+    induction l as [|a r IH]; intros k x y Hs Hx Hy; destruct k; cbn in *; try contradiction.
+    destruct Hs as [Ha Hr]. destruct Hx as [<-|Hx].
+    - apply Ha. eapply (in_skipn_l r k). exact Hy.
+    - eapply IH; eassumption.
+  Qed.
+End SORT.
+
+(* the k rows TopKPlanner keeps of the rows of one timestamp: k of them (all when there are fewer), rows of the input,
+   and every row left out has a value not above (topk) / not below (bottomk) every row kept *)
+Theorem topk_group_correct k top (g : list mrow) :
+  let kept := firstn k (sort_by (tk_before top) g) in
+  let dropped := skipn k (sort_by (tk_before top) g) in
+  List.length kept = Nat.min k (List.length g) /\
+  (forall r, In r kept -> In r g) /\
+  (forall r, In r g -> In r kept \/ In r dropped) /\
+  (forall x y, In x kept -> In y dropped -> if top then (r_val y <= r_val x)%Qc else (r_val x <= r_val y)%Qc).
+Proof.
+  cbn zeta. split; [|split; [|split]].
+  - now rewrite firstn_length, sort_length.
+  - intros r Hr. apply (sort_in (tk_before top)). eapply (in_firstn_l _ k). exact Hr.
+  - intros r Hr. apply (sort_in (tk_before top)) in Hr. rewrite <- (firstn_skipn k (sort_by (tk_before top) g)) in Hr.
+    now apply in_app_or in Hr.
+  - intros x y Hx Hy. apply tk_before_val.
+    eapply (sorted_split (tk_before top)); [apply sort_sorted; [apply tk_total|apply tk_trans]|exact Hx|exact Hy].
+Qed.
+
 (* ================= the planner chain ================= *)
 (* planners of the log part (and unwrap): sem passes the base rows through them, changing at most the value column *)
 Fixpoint nmh (p : planner) : bool :=
@@ -856,33 +963,52 @@ Section CHAIN.
     - now rewrite H.
   Qed.
 
-  Theorem metric_correct c base s fin p :
-    analyze_m15 s = false -> plan_metric s fin = Some p -> script_ok s ->
-    0 < c_step_ns c -> consistent base -> nonneg base ->
-    option_map (map strip) (sem p c base) = mref s c (map entry_of base).
+  (* the planner chain apply_mfns builds for a range-aggregation / vector-aggregation / quantile script *)
+  Definition chain (lj li : bool) (s : script) (spl : planner) : planner :=
+    match s with
+    | SLra l => lra_chain lj l spl
+    | SAgg a => plan_cmp (agg_cmp a) (PAggOpP (agg_f a) (lj || li) (plan_bw (agg_prefix a) (agg_suffix a) (negb lj) (lra_chain lj (agg_lra a) spl)))
+    | SQuantile q => plan_cmp (q_cmp q) (PQuantileP (q_param q) (q_dur_ns q) (plan_bw (q_prefix q) (q_suffix q) (negb lj) spl))
+    | _ => spl
+    end.
+  Lemma apply_chain lj li s spl : script_ok s ->
+    apply_mfns lj li (fst (function_order s)) spl = Some (chain lj li s spl).
   Proof.
-    intros Ha Hp Hok Hs Hc Hn. rewrite (plan_metric_unfold s fin Ha) in Hp.
-    destruct (spl_of s) as [spl|] eqn:Espl; [|discriminate]. unfold spl_of in Espl.
+    destruct s as [sel|l|a|t|q|]; cbn [script_ok]; try contradiction; intros _; cbn [function_order chain].
+    - rewrite apply_fo_lra. reflexivity.
+    - unfold fo_agg. rewrite (surjective_pairing (fo_lra (agg_lra a) [] None)). cbn [fst snd].
+      rewrite apply_mfns_app, apply_fo_lra. cbn [apply_mfns app apply_mfn]. now rewrite apply_cmp.
+    - unfold fo_quantile. cbn [fst app apply_mfns apply_mfn]. now rewrite apply_cmp.
+  Qed.
+
+  (* the reference before the step re-bucketing *)
+  Definition inner_ref (s : script) (es : list entry) : option (list vrow) :=
+    match s with
+    | SLra l => ref_lra to_float varpop stddevpop l es
+    | SAgg a => ref_aggop to_float varpop stddevpop a es
+    | SQuantile q => Some (ref_quant to_float quantile_o q es)
+    | _ => None
+    end.
+  Lemma metric_ref_inner s c es :
+    mref s c es = match inner_ref s es with Some v => Some (ref_step (c_step_ns c) (get_duration s) v) | None => None end.
+  Proof. destruct s; reflexivity. Qed.
+
+  Theorem inner_correct c base s spl lj li :
+    spl_of s = Some spl -> script_ok s -> consistent base -> nonneg base ->
+    match sem (chain lj li s spl) c base with
+    | Some rows => inner_ref s (map entry_of base) = Some (map strip rows) /\ consistent rows /\ nonneg rows
+    | None => inner_ref s (map entry_of base) = None
+    end.
+  Proof.
+    intros Espl Hok Hc Hn. unfold spl_of in Espl.
     assert (Hcur : forall fpp, nmh (PFingerprintFilter fpp PMainInit) = true) by reflexivity.
-    destruct s as [sel|l|a|t|q|]; cbn [script_ok] in Hok; try contradiction.
+    destruct s as [sel|l|a|t|q|]; cbn [script_ok] in Hok; try contradiction; cbn [chain inner_ref stream_selector] in *.
     - (* SLra *)
-      cbn [function_order stream_selector] in *.
-      rewrite (surjective_pairing (fo_lra l [] None)) in Hp. cbn [fst snd] in Hp.
-      rewrite apply_fo_lra in Hp. cbn [apply_mfns] in Hp. inversion Hp; subst p; clear Hp.
-      rewrite sem_tail. unfold metric_ref. cbn [get_duration].
-      apply finish_step; [exact Hs|].
       eapply lra_chain_correct; try eassumption; try reflexivity; try apply simple_ops_length; try apply Hcur.
     - (* SAgg *)
-      cbn [function_order stream_selector] in *. unfold fo_agg in Hp.
-      rewrite (surjective_pairing (fo_lra (agg_lra a) [] None)) in Hp. cbn [fst snd] in Hp.
-      rewrite apply_mfns_app, apply_fo_lra in Hp. cbn [apply_mfns app apply_mfn] in Hp.
-      rewrite apply_cmp in Hp. inversion Hp; subst p; clear Hp.
-      rewrite sem_tail. unfold metric_ref, ref_aggop. cbn [get_duration].
-      apply finish_step; [exact Hs|].
-      rewrite sem_cmp_opt. cbn [LogqlMetricSem.sem]. rewrite sem_bw_opt.
-      pose proof (lra_chain_correct c base (lj_of (SAgg a)) (agg_lra a) spl _ _ _ _ _ _ eq_refl (simple_ops_length _) Espl (Hcur _) Hok Hc Hn) as Hl.
-      cbn [stream_selector] in Hl.
-      destruct (sem (lra_chain (lj_of (SAgg a)) (agg_lra a) spl) c base) as [rows|]; cbn [option_map].
+      unfold ref_aggop. rewrite sem_cmp_opt. cbn [LogqlMetricSem.sem]. rewrite sem_bw_opt.
+      pose proof (lra_chain_correct c base lj (agg_lra a) spl _ _ _ _ _ _ eq_refl (simple_ops_length _) Espl (Hcur _) Hok Hc Hn) as Hl.
+      destruct (sem (lra_chain lj (agg_lra a) spl) c base) as [rows|]; cbn [option_map].
       + destruct Hl as [-> [Hc1 Hn1]].
         destruct (maybe_bw_inv fp fp_inj (grouping (agg_prefix a) (agg_suffix a)) rows Hc1 Hn1) as [Hc2 Hn2].
         rewrite (agg_stage_ref fp varpop stddevpop (agg_f a) _ rows Hc2), cmp_rows_ref.
@@ -890,10 +1016,7 @@ Section CHAIN.
         destruct (cmp_rows_inv (agg_cmp a) _ Hc3 Hn3). auto.
       + now rewrite Hl.
     - (* SQuantile *)
-      destruct Hok as [Hd Hul]. cbn [function_order stream_selector] in *. unfold fo_quantile in Hp. cbn [fst snd] in Hp.
-      cbn [app apply_mfns apply_mfn] in Hp. rewrite apply_cmp in Hp. inversion Hp; subst p; clear Hp.
-      rewrite sem_tail. unfold metric_ref, ref_quant. cbn [get_duration].
-      apply (finish_step c (q_dur_ns q) _ (Some _)); [exact Hs|].
+      destruct Hok as [Hd Hul]. unfold ref_quant.
       rewrite sem_cmp_opt. cbn [LogqlMetricSem.sem]. rewrite sem_bw_opt.
       rewrite unwrap_label_last in Hul |- *.
       destruct (last_st (sel_pipeline (q_sel q))) as [[| | | | |label|]|] eqn:Elast; try congruence.
@@ -913,6 +1036,69 @@ Section CHAIN.
       rewrite (quantile_stage quantile_o (q_param q) (q_dur_ns q) rows1 Hc1 Hn1 Hd), cmp_rows_ref.
       destruct (sem_quantile_inv fp quantile_o fp_inj (q_param q) (q_dur_ns q) rows1 Hc1 Hn1 Hd) as [Hc2 Hn2].
       destruct (cmp_rows_inv (q_cmp q) _ Hc2 Hn2). auto.
+  Qed.
+
+  Theorem metric_correct c base s fin p :
+    analyze_m15 s = false -> plan_metric s fin = Some p -> script_ok s ->
+    0 < c_step_ns c -> consistent base -> nonneg base ->
+    option_map (map strip) (sem p c base) = mref s c (map entry_of base).
+  Proof.
+    intros Ha Hp Hok Hs Hc Hn. rewrite (plan_metric_unfold s fin Ha) in Hp.
+    destruct (spl_of s) as [spl|] eqn:Espl; [|discriminate].
+    rewrite (apply_chain _ _ s spl Hok) in Hp. inversion Hp; subst p; clear Hp.
+    rewrite sem_tail, metric_ref_inner. apply finish_step; [exact Hs|].
+    now apply inner_correct.
+  Qed.
+
+  (* --- topk / bottomk over such a script --- *)
+  Definition tk_inner (t : topk) : script :=
+    match tk_arg t with TKLra l => SLra l | TKAgg a => SAgg a | TKQuantile q => SQuantile q end.
+  (* per timestamp of the input, the rows kept are topk_group_correct's `kept` of the rows of that timestamp *)
+  Definition topk_spec (k : Z) (top : bool) (inp out : list mrow) : Prop :=
+    map strip out = map strip (flat_map (fun g => firstn (Z.to_nat k) (sort_by (tk_before top) g)) (group_by same_ts inp)).
+  Lemma sem_topk_spec k top inp : topk_spec k top inp (sem_topk k top inp).
+  Proof.
+    unfold topk_spec, sem_topk. induction (group_by same_ts inp) as [|g r IH]; [reflexivity|].
+    cbn [flat_map]. rewrite !map_app, IH, map_map. reflexivity.
+  Qed.
+  Lemma sem_topk_from k top inp r : In r (sem_topk k top inp) ->
+    exists h, In h inp /\ r_fp r = r_fp h /\ r_labels r = r_labels h /\ r_ts r = r_ts h.
+  Proof.
+    unfold sem_topk. intros Hr. apply in_flat_map in Hr. destruct Hr as [g [Hg Hr]].
+    apply in_map_iff in Hr. destruct Hr as [x [<- Hx]]. apply in_firstn_l in Hx.
+    apply (proj1 (sort_in (tk_before top) g x)) in Hx. exists x. split; [exact (group_members same_ts inp g x Hg Hx)|]. cbn. auto.
+  Qed.
+
+  Theorem topk_correct c base t fin p :
+    analyze_m15 (STopK t) = false -> plan_metric (STopK t) fin = Some p -> script_ok (tk_inner t) ->
+    0 < c_step_ns c -> consistent base -> nonneg base ->
+    match sem p c base with
+    | Some out =>
+      exists inner kept, inner_ref (tk_inner t) (map entry_of base) = Some (map strip inner) /\
+                         topk_spec (tk_len t) (tk_top t) inner kept /\
+                         map strip out = ref_step (c_step_ns c) (get_duration (STopK t)) (ref_cmp (tk_cmp t) (map strip kept))
+    | None => inner_ref (tk_inner t) (map entry_of base) = None
+    end.
+  Proof.
+    intros Ha Hp Hok Hs Hc Hn. rewrite (plan_metric_unfold (STopK t) fin Ha) in Hp.
+    destruct (spl_of (STopK t)) as [spl|] eqn:Espl; [|discriminate].
+    assert (Espl' : spl_of (tk_inner t) = Some spl) by (unfold tk_inner, spl_of in *; cbn [stream_selector] in *; destruct (tk_arg t); exact Espl).
+    assert (Eord : fst (function_order (STopK t)) = (fst (function_order (tk_inner t)) ++ [MTopK t] ++ fo_cmp (tk_cmp t))%list).
+    { unfold tk_inner. cbn [function_order]. destruct (tk_arg t) as [l|a|q]; cbn [function_order];
+        [destruct (fo_lra l [] None)|destruct (fo_agg a [] None)|destruct (fo_quantile q [] None)]; reflexivity. }
+    rewrite Eord, apply_mfns_app, (apply_chain _ _ (tk_inner t) spl Hok) in Hp.
+    cbn [app apply_mfns apply_mfn] in Hp. unfold plan_topk in Hp.
+    destruct (Z.ltb (tk_len t) 0); [discriminate|]. rewrite apply_cmp in Hp. inversion Hp; subst p; clear Hp.
+    rewrite sem_tail, sem_cmp_opt. cbn [LogqlMetricSem.sem].
+    pose proof (inner_correct c base (tk_inner t) spl (lj_of (STopK t)) (is_some (snd (function_order (STopK t)))) Espl' Hok Hc Hn) as Hi.
+    destruct (sem (chain _ _ (tk_inner t) spl) c base) as [inner|]; cbn [option_map]; [|exact Hi].
+    destruct Hi as [Hi [Hc1 Hn1]].
+    exists inner, (sem_topk (tk_len t) (tk_top t) inner). split; [exact Hi|]. split; [apply sem_topk_spec|].
+    assert (Hfrom : forall r, In r (sem_topk (tk_len t) (tk_top t) inner) ->
+                    exists h, In h inner /\ r_fp r = r_fp h /\ r_labels r = r_labels h /\ r_ts r = r_ts h) by apply sem_topk_from.
+    pose proof (consistent_from _ _ Hc1 Hfrom) as Hc2. pose proof (nonneg_from _ _ Hn1 Hfrom) as Hn2.
+    destruct (cmp_rows_inv (tk_cmp t) _ Hc2 Hn2) as [Hc3 Hn3].
+    rewrite cmp_rows_ref. unfold post_step. symmetry. now apply step_stage.
   Qed.
 End CHAIN.
 
@@ -937,3 +1123,80 @@ Proof.
   - intros a b [<-|[<-|[]]] [<-|[<-|[]]]; cbn; split; congruence.
   - intros a [<-|[<-|[]]]; cbn; lia.
 Qed.
+
+(* ================= Go post-processors ================= *)
+Lemma fix_window_aligned from to d : 0 <= from -> 0 <= to -> 0 < d ->
+  fix_from from d mod d = 0 /\ fix_from from d <= from < fix_from from d + d /\
+  fix_to to d mod d = 0 /\ to < fix_to to d <= to + d.
+Proof.
+  intros Hf Ht Hd. unfold fix_from, fix_to. rewrite !quot_div_nonneg by lia.
+  pose proof (Z.div_mod from d ltac:(lia)). pose proof (Z.mod_pos_bound from d Hd).
+  pose proof (Z.div_mod to d ltac:(lia)). pose proof (Z.mod_pos_bound to d Hd).
+  split; [apply Z.mod_mul; lia|]. split; [lia|]. split; [|lia].
+  replace (to / d * d + d) with ((to / d + 1) * d) by lia. apply Z.mod_mul; lia.
+Qed.
+Example fix_window_hyp : 0 <= 1700083884000000000 /\ 0 <= 1700083888000000000 /\ 0 < 7000000000.
+Proof. lia. Qed.
+
+Section POSTPROOFS.
+  Context {V : Type} (is_zero : V -> bool) (zero : V).
+
+  Lemma zero_eater_spec (bs : list (list (pentry V))) :
+    List.concat (zero_eater is_zero bs) = filter (fun e => negb (is_zero (pe_val e))) (List.concat bs) /\
+    forall b, In b (zero_eater is_zero bs) -> b <> [].
+  Proof.
+    unfold zero_eater. split.
+    - induction bs as [|b r IH]; [reflexivity|]. cbn [map filter List.concat].
+      rewrite filter_app, <- IH.
+      destruct (filter (fun e => negb (is_zero (pe_val e))) b) eqn:E; cbn; [reflexivity|reflexivity].
+    - intros b Hb. apply filter_In in Hb. destruct Hb as [_ Hb]. destruct b; [discriminate|congruence].
+  Qed.
+
+  Lemma fill_length (vals : list V) : forall i lo hi v, List.length (fill vals i lo hi v) = List.length vals.
+  Proof. induction vals as [|x r IH]; intros; cbn; [reflexivity|now rewrite IH]. Qed.
+  Lemma fix_place_length from step d n (vals : list V) (e : pentry V) : List.length (fix_place from step d n vals e) = List.length vals.
+  Proof. unfold fix_place. destruct (_ || _); [reflexivity|apply fill_length]. Qed.
+
+  Lemma zrange_combine_in (vals : list V) : forall s i v, In (i, v) (combine (zrange (List.length vals) s) vals) ->
+    s <= i < s + Z.of_nat (List.length vals).
+  Proof.
+    induction vals as [|x r IH]; intros s i v H; cbn in H; [contradiction|].
+    destruct H as [H|H].
+    - inversion H; subst. cbn [List.length]. lia.
+    - apply IH in H. cbn [List.length]. lia.
+  Qed.
+  Lemma fix_export_grid from step f (vals : list V) b (e : pentry V) :
+    In b (fix_export is_zero from step f vals) -> In e b ->
+    exists i, 0 <= i < Z.of_nat (List.length vals) /\ pe_ts e = from + i * step /\ pe_fp e = f /\ is_zero (pe_val e) = false.
+  Proof.
+    unfold fix_export. set (es := flat_map _ _). intros Hb He.
+    assert (Hin : In e es) by (destruct es; [contradiction|destruct Hb as [<-|[]]; exact He]).
+    unfold es in Hin. apply in_flat_map in Hin. destruct Hin as [[i v] [Hiv Hx]]. cbn [fst snd] in Hx.
+    destruct (is_zero v) eqn:Ez; [contradiction|]. destruct Hx as [<-|[]].
+    apply zrange_combine_in in Hiv. exists i. cbn. auto with zarith.
+  Qed.
+
+  Lemma fix_run_grid from step d n : forall (es : list (pentry V)) st b (e : pentry V),
+    (match st with Some (_, vals) => List.length vals = Z.to_nat n | None => True end) ->
+    In b (fix_run is_zero zero from step d n st es) -> In e b ->
+    exists i, 0 <= i < Z.of_nat (Z.to_nat n) /\ pe_ts e = from + i * step /\ is_zero (pe_val e) = false.
+  Proof.
+    induction es as [|x r IH]; intros st b e Hst Hb He; cbn [fix_run] in Hb.
+    - destruct st as [[f vals]|]; [|contradiction].
+      destruct (fix_export_grid _ _ _ _ _ _ Hb He) as [i [Hi [Ht [_ Hz]]]]. rewrite Hst in Hi. eauto.
+    - destruct st as [[f vals]|].
+      + destruct (N.eqb (pe_fp x) f).
+        * eapply IH; [|exact Hb|exact He]. cbn. now rewrite fix_place_length.
+        * apply in_app_or in Hb. destruct Hb as [Hb|Hb].
+          -- destruct (fix_export_grid _ _ _ _ _ _ Hb He) as [i [Hi [Ht [_ Hz]]]]. rewrite Hst in Hi. eauto.
+          -- eapply IH; [|exact Hb|exact He]. cbn. now rewrite fix_place_length, repeat_length.
+      + eapply IH; [|exact Hb|exact He]. cbn. now rewrite fix_place_length, repeat_length.
+  Qed.
+
+  (* every point FixPeriodPlanner reports lies on the step grid from `from`, inside the array, and is not zero *)
+  Theorem fix_period_grid from to step d (bs : list (list (pentry V))) b (e : pentry V) :
+    In b (fix_period is_zero zero from to step d bs) -> In e b ->
+    exists i, 0 <= i < Z.of_nat (Z.to_nat (Z.quot (to - from) step + 1)) /\ pe_ts e = from + i * step /\ is_zero (pe_val e) = false.
+  Proof. unfold fix_period. intros Hb He. eapply fix_run_grid; [|exact Hb|exact He]. exact I. Qed.
+End POSTPROOFS.
+
